@@ -72,6 +72,28 @@ if os.environ.get('MODE') == 'del':
             if re.match(r'^[\w.\[\]\*, ]+ (=|\+=|-=) .+$', s_) or re.match(r'^[\w.\[\]]+(\+\+|--)$', s_) or re.match(r'^[\w.]+\(.*\)$', s_) or s_ in ('continue', 'break'):
                 indent = line[:len(line) - len(line.lstrip())]
                 mutants.append((f, i, line, indent + '// deleted'))
+if os.environ.get('MODE') == 'cond':
+    # condition forcing: `if c {` -> `if true {` / `if false {` (also `} else if c {`), and dropping one operand of && / ||
+    mutants = []
+    for f in files:
+        lines = open(os.path.join(REPO, f)).read().split('\n')
+        for i, line in enumerate(lines):
+            m = re.match(r'^(\s*(?:\} else )?if )(.*)( \{)$', line)
+            if not m:
+                continue
+            pre, cond, post = m.groups()
+            init = ''
+            if '; ' in cond:
+                init, cond = cond.rsplit('; ', 1)
+                init += '; '
+            for forced in ('true', 'false'):
+                mutants.append((f, i, line, pre + init + forced + post))
+            for op in (' && ', ' || '):
+                parts = cond.split(op)
+                if len(parts) >= 2 and '(' not in cond.replace('()', ''):
+                    for k in range(len(parts)):
+                        rest = parts[:k] + parts[k+1:]
+                        mutants.append((f, i, line, pre + init + op.join(rest) + post))
 print(len(files), 'files', len(mutants), 'mutants', flush=True)
 
 def run(k):
